@@ -231,7 +231,8 @@ def h_dataselect(I):
     given = bool(I.boolean('optional_given'))
     as_nan = bool(I.boolean('missing_value_is_nan'))
     zero = bool(I.boolean('optional_is_idx_0'))
-    opt = (0 if zero else 7) if given else (float('nan') if as_nan else None)
+    text = bool(I.boolean('optional_is_a_string_idx'))
+    opt = ('BX' if text else (0 if zero else 7)) if given else (float('nan') if as_nan else None)
     sel = DataSelect(NS(v=[opt, 5]), NS(v=[3, 4]), name='sel')
     out = list(sel.v)
     return [('DataSelect takes the optional index when given (0 included) and the fallback otherwise',
